@@ -13,7 +13,6 @@ import os
 import shutil
 import subprocess
 import tempfile
-import threading
 
 from harness import core, enc, watchdog
 from harness.tlc import MachineryError
@@ -368,12 +367,12 @@ def make_items(ctx, arch, dm, scale):
         add("enum", rng.choice(["int", "int", "llong", "uchar", "short", "uint"]),
             {"k": "enum", "idx": which, "name": nm + "ABC"[which - 1]}, enums, fam="enum")
     # F10: case labels and bit-field widths (behaviour of the produced IR)
-    for _ in range(int(26 * scale)):
+    for _ in range(int(20 * scale)):
         sel = rng.choice(["int", "int", "uint", "long", "ulong", "llong", "ullong"])
         e = rng.choice([g.tree(2), bn(rng.choice(list(BIN)), rng.choice([g.operand(sel), un("neg", g.small(1, 40))]), g.small(1, 9)),
                         g.operand(), cast(rng.choice(TYPES), g.operand())])
         add("case", sel, e, fam="case")
-    for _ in range(int(14 * scale)):
+    for _ in range(int(10 * scale)):
         r = rng.random()
         e = bn("add", bn("and", g.tree(2), g.small(1, 31)), lit(1)) if r < 0.5 else bn(rng.choice(list(BIN)), g.small(1, 40), g.small(1, 9))
         add("bitfield", "uint", e, fam="bitfield")
@@ -404,7 +403,7 @@ def render_item(it, n):
     if site == "case":
         return "int f%d(%s x) { switch (x) { case %s: return 1; } return 0; }\n" % (n, t, e), "f%d" % n
     if site == "bitfield":
-        return ("%s f%d(%s x) { struct { %s a : %s; } s; s.a = x; return s.a; }\n" % (t, n, t, t, e)), "f%d" % n
+        return ("struct B%d { %s a : %s; %s pad; } b%d;\n%s f%d(%s x) { b%d.a = x; return b%d.a; }\n" % (n, t, e, t, n, t, n, t, n, n)), "f%d" % n
     raise ValueError(site)
 
 
@@ -431,6 +430,13 @@ def out_rec(ok=False, diag=False, exc="", bytes_=(), amount=0):
 
 
 def observe_data(it, name, module, dm):
+    try:
+        return _observe_data(it, name, module, dm)
+    except Exception as e:  # a changed tree may hand back odd objects: an observation, not a harness crash
+        return out_rec(exc="observation:" + type(e).__name__)
+
+
+def _observe_data(it, name, module, dm):
     """What the front-end put into the IR for the object `name` (no interpretation beyond locating it)."""
     vs = [v for v in module.variables if v.name == name or (it["site"] == "lstatic" and v.name.startswith(name))]
     if len(vs) != 1:
@@ -493,6 +499,11 @@ def ident(it):
     return "%s:%s:%s:%s" % (it["arch"], it["site"], it["dest"], it["ctext"])
 
 
+def portable(it):
+    """The input itself (for replay files)."""
+    return {k: it[k] for k in ("arch", "site", "dest", "e", "enums", "fam")}
+
+
 def strip_names(e):
     if isinstance(e, dict):
         return {k: strip_names(v) for k, v in e.items() if k not in ("name", "up")}
@@ -534,6 +545,7 @@ def judge(ctx, items):
         if field is None:
             raise MachineryError("unexpected status in TLC's judgement of record %d: %r" % (k + 1, v))
         ctx.cov[field] = ctx.cov.get(field, 0) + 1
+        ctx.count(ident(it) if v["st"] == "ok" else None)  # distinct_nontrivial counts compared inputs only
         if v["st"] != "ok":
             rs = ctx.cov.setdefault("skip_reasons", {})
             rs[v["why"]] = rs.get(v["why"], 0) + 1
@@ -552,7 +564,7 @@ def judge(ctx, items):
             else:
                 outcome, what = "wrong", "bytes %s, required %s" % (bytes(o["bytes"]).hex(), _hex(v.get("bytes")))
             ctx.violation(vkey(it, outcome, sorted(v["fl"])), "%s  [%s]: %s" % (it["ctext"], it["arch"], what),
-                          {"id": ident(it), "source": render_item(it, 0)[0], "observed": o,
+                          {"id": ident(it), "item": portable(it), "source": render_item(it, 0)[0], "observed": o,
                            "required": {x: v[x] for x in ("st", "bytes", "amount", "fl")}, "clause": clause})
     # behavioural sites: run the IR ppci produced on the probe words written by TLC
     cases, owners = [], []
@@ -590,7 +602,7 @@ def judge(ctx, items):
             ctx.violation(vkey(it, outcome, sorted(fl)),
                           "%s  [%s]: probe %s returned %s (status %s %s), required %s" % (
                               it["ctext"], it["arch"], _hex(probe["x"]), _hex(st.get("ret")), st.get("status"), st.get("why"), _hex(probe["r"])),
-                          {"id": ident(it), "source": render_item(it, 0)[0], "probe": probe, "clause": e.name})
+                          {"id": ident(it), "item": portable(it), "source": render_item(it, 0)[0], "probe": probe, "clause": e.name})
     return bad
 
 
@@ -664,48 +676,34 @@ class Engine:
                    "the specification requires the two's complement wrap / arithmetic shift that gcc documents and that ppci's own "
                    "run-time code implements (such cases carry the notes castS / destS / impl-shr-negative)")
         ctx.assume("harness/project_ir.py reports the IR of the probe functions faithfully; IR.tla is the semantics of ppci IR")
-        mc_err = []
-        mc = None
         if ctx.only is None and not ref:
-            def run_mc():
-                try:
-                    res = ctx.tlc("CConst_MC", MC_CFG % ("TRUE" if thorough else "FALSE"), label="laws of the evaluator", workers=4,
-                                  coverage=False, timeout=3000)
-                    if res.errors:
-                        mc_err.append("a law of CConst.tla fails in the specification itself: %s" % res.errors[:3])
-                except BaseException as e:  # re-raised in the main thread
-                    mc_err.append(e)
-            mc = threading.Thread(target=run_mc)
-            mc.start()
-        try:
-            targets = [("x86_64", 1.0), ("arm", 0.45)] + ([("msp430", 0.3), ("or1k", 0.3)] if thorough else [])
-            items = []
-            for arch, share in targets:
-                dm = data_model(arch)
-                its = make_items(ctx, arch, dm, share * (8.0 if thorough else 1.0))
-                for it in its:
-                    it["dm"] = dm
-                    it["ctext"] = c_text(it)
-                seen = set()
-                its = [it for it in its if not (ident(it) in seen or seen.add(ident(it)))]
-                if ctx.only is not None:
-                    want = (ctx.only.get("case") or {}).get("id")
-                    its = [it for it in its if ident(it) == want]
-                if ref == "gcc":
-                    its = [it for it in its if it["site"] == "init" and not it["enums"] and arch in ("x86_64", "arm")]
-                    gcc_outcomes(its, dm)
-                else:
-                    observe(ctx, its, arch, dm)
-                items += its
-        finally:
-            if mc is not None:
-                mc.join()
-        if mc_err:
-            if isinstance(mc_err[0], BaseException):
-                raise mc_err[0]
-            raise MachineryError(mc_err[0])
-        for it in items:
-            ctx.count(ident(it))
+            res = ctx.tlc("CConst_MC", MC_CFG % ("TRUE" if thorough else "FALSE"), label="laws of the evaluator", workers=8,
+                          coverage=False, timeout=3000)
+            if res.errors:
+                raise MachineryError("a law of CConst.tla fails in the specification itself: %s" % res.errors[:3])
+            ctx.cov["law_families_checked"] = 17
+        if ctx.only is not None:
+            thorough = True  # all targets are candidates for the recorded input
+        targets = [("x86_64", 0.6), ("arm", 0.25)] if not thorough else [("x86_64", 6.0), ("arm", 2.5), ("msp430", 1.5), ("or1k", 1.5)]
+        items = []
+        for arch, scale in targets:
+            dm = data_model(arch)
+            if ctx.only is not None:  # replay: exactly the recorded input
+                saved = (ctx.only.get("case") or {}).get("item") or {}
+                its = [dict(saved)] if saved.get("arch") == arch else []
+            else:
+                its = make_items(ctx, arch, dm, scale)
+            for it in its:
+                it["dm"] = dm
+                it["ctext"] = c_text(it)
+            seen = set()
+            its = [it for it in its if not (ident(it) in seen or seen.add(ident(it)))]
+            if ref == "gcc":
+                its = [it for it in its if it["site"] == "init" and not it["enums"] and arch in ("x86_64", "arm")]
+                gcc_outcomes(its, dm)
+            else:
+                observe(ctx, its, arch, dm)
+            items += its
         for it in items[:: max(1, len(items) // 5)][:5]:
             ctx.sample({"input": it["ctext"], "target": it["arch"], "observed": {k: v for k, v in it["out"].items() if v not in ("", [], 0, False)}})
         fam = {}
